@@ -185,6 +185,9 @@ pub struct Event {
     pub step: u64,
     pub tid: Tid,
     pub detail: String,
+    /// the thread was unwinding from an injected user panic when the event happened
+    #[serde(default)]
+    pub during_user_unwind: bool,
 }
 
 #[derive(Clone, Copy, PartialEq, Eq, Debug)]
@@ -306,6 +309,8 @@ pub struct Inner {
     pub api_log: Vec<(Tid, u32, ApiKind, u32)>,
     /// raw faults fired so far, per thread
     pub faults_by: Vec<u64>,
+    /// set by the workload between an injected user panic and the catch of its unwind
+    pub user_unwinding: Vec<bool>,
 }
 
 pub struct Sched {
@@ -440,7 +445,8 @@ impl Inner {
         }
         if self.events.len() < 8 {
             let step = self.stats.steps;
-            self.events.push(Event { clause, step, tid, detail });
+            let during_user_unwind = self.user_unwinding.get(tid).copied().unwrap_or(false);
+            self.events.push(Event { clause, step, tid, detail, during_user_unwind });
         }
     }
 
@@ -631,11 +637,12 @@ impl Inner {
                             }
                             if let Some(pos) = pos {
                                 self.locks[lid].shared.remove(pos);
-                            } else if !self.locks[lid].shared.is_empty() {
+                            } else if self.locks[lid].excl.is_none() && !self.locks[lid].shared.is_empty() {
+                                // somebody else's shared hold is consumed
                                 self.locks[lid].shared.remove(0);
-                            } else if self.locks[lid].excl == Some(t) {
-                                self.locks[lid].excl = None;
                             }
+                            // a shared release of an exclusively held lock does not clear the
+                            // writer: the lock stays held
                             self.note_rel(t, lid, true, ok);
                         }
                     }
@@ -746,6 +753,7 @@ impl Sched {
                 rr_next: 0,
                 api_log: Vec::new(),
                 faults_by: vec![0; nthreads],
+                user_unwinding: vec![false; nthreads],
             }),
             cvs: (0..nthreads).map(|_| Condvar::new()).collect(),
             ctl: Condvar::new(),
@@ -983,7 +991,14 @@ impl Sched {
             }
             pending = Pending::Raw { lid, op, fault };
         }
-        self.sched_point(me, pending)
+        let g = self.sched_point(me, pending);
+        if op.is_release() {
+            // a second scheduling point right after the release took effect: whatever the
+            // releasing thread still does (set a poison flag, give a key back) can then be
+            // overtaken by a thread that was waiting for this lock
+            self.sched_point(me, Pending::Yield);
+        }
+        g
     }
 
     pub fn yield_point(&self) {
@@ -1089,6 +1104,12 @@ impl Sched {
     pub fn report(&self, clause: Clause, detail: String) {
         let me = my_tid().unwrap_or(0);
         self.lock().event(clause, me, detail);
+    }
+
+    pub fn set_user_unwinding(&self, v: bool) {
+        if let Some(me) = my_tid() {
+            self.lock().user_unwinding[me] = v;
+        }
     }
 
     pub fn aborted(&self) -> bool {
